@@ -8,8 +8,8 @@
    Proved here, for all inputs, on the model of asserts/headers.go and of the Decoder of asserts/asserts.go:
    the header text round trip for every normalised header tree of any depth, line splitting, totality of the header
    parser (no out-of-range index, termination within 2*lines+1 steps) on every byte string, the size bounds of
-   readUntil and of every assertion a Decoder.Decode call hands on, and that the only panic of Decoder.Decode is the
-   negative body-length one (recorded finding, witness below).
+   readUntil and of every assertion a Decoder.Decode call hands on, and that Decoder.Decode never panics (the negative
+   body-length panic found by this check is repaired in /repo, commit 94ffaa1).
    Not proved (monitored on the implementation by the differential run): the content/signature/body splitting of a
    whole encoded assertion, the per-type checks of assemble, and absence of hangs in the real decoder. *)
 From Coq Require Import List NArith ZArith Bool String.
@@ -59,22 +59,18 @@ Theorem C20_limits : forall lim d p d',
 Proof. exact stream_limits. Qed.
 Print Assumptions C20_limits.
 
-(* the stream decoder can panic only through a negative body-length header larger in magnitude than the header text *)
-Theorem C20_stream_panic_only_negative_length : forall lim d d',
-  stream_decode lim d = (SPanic, d') ->
-  exists headAndSep h len,
-    parse_headers (firstn (List.length headAndSep - 2) headAndSep) = Ok h /\ body_length h = Some len /\
-    (Z.of_N (lenN headAndSep) + len < 0)%Z.
-Proof. exact stream_panic_only_negative_length. Qed.
-Print Assumptions C20_stream_panic_only_negative_length.
+(* the stream decoder never panics, whatever the stream and the limits (a negative body-length is rejected with an
+   error before the buffer is allocated; repaired in /repo commit 94ffaa1, see KNOWN_FINDINGS `fixed:`) *)
+Theorem C20_stream_never_panics : forall lim d, fst (stream_decode lim d) <> SPanic.
+Proof. exact stream_never_panics. Qed.
+Print Assumptions C20_stream_never_panics.
 
-(* ... and it does: "never crashes" is false for Decoder.Decode (confirmed on the real code, KNOWN_FINDINGS) *)
+Theorem C20_stream_loop_never_panics : forall accepted lim d, ~ In SPanic (stream_all lim d accepted).
+Proof. exact stream_all_never_panics. Qed.
+Print Assumptions C20_stream_loop_never_panics.
+
+(* the input that used to panic the decoder *)
 Definition neg_length_stream : bytes := bs "body-length: -100" ++ [10; 10] ++ bs "x".
-
-Theorem C20_stream_never_panics_refuted :
-  exists stream, fst (stream_decode default_limits (mkD stream false)) = SPanic.
-Proof. exists neg_length_stream. vm_compute. reflexivity. Qed.
-Print Assumptions C20_stream_never_panics_refuted.
 
 (* the normal-form hypothesis of the round trip is needed: an empty list inside a list is dropped by appendEntry
    (assembleAndSign accepts such headers; confirmed on the real code), a list of empty lists cannot be read back *)
@@ -100,6 +96,8 @@ Proof. vm_compute. reflexivity. Qed.
 Example C20_ex_unreadable : parse_header_lines (format_headers unreadable_tree) = Err.
 Proof. vm_compute. reflexivity. Qed.
 Example C20_ex_reject : parse_headers (bs "a:" ++ [10] ++ bs "  -") = Err.
+Proof. vm_compute. reflexivity. Qed.
+Example C20_ex_negative_length_rejected : fst (stream_decode default_limits (mkD neg_length_stream false)) = SErr.
 Proof. vm_compute. reflexivity. Qed.
 Example C20_ex_limit : fst (read_until ru_fuel 16 64 (mkD (repeat 97 200) false)) = RTooBig.
 Proof. vm_compute. reflexivity. Qed.
